@@ -23,7 +23,7 @@ RULE = (
     "increasing sequence of 3-8 ages drawn around {0, L-e, L, 2L+3-e, 2L+3, 2L+3+e, 10L, 10 years}; non-trivial = an age "
     "within +-1 s of a threshold, distinct by (kind, L, ages). (b) a case = 8-40 steps over a loaded evohome schema (6 "
     "zones, DHW, relay, TRVs): writers = array and per-zone forms of 30C9/2309/2349/000A/12B0/0004 for zones 00-05, "
-    "1260/10A0/1F41 for DHW, 2E04/3150 for the system, 30C9/2309/3150/12B0/0008/1260 from devices, interleaved with "
+    "1260/10A0/1F41 for DHW, 2E04/3150 for the system, 30C9/2309/3150/12B0/0008/1260 from devices, 1298/12A0 from HVAC sensors, 3220 (status data-ids 12/19/1A/1B) and 3210 from an OpenTherm bridge (values kept in the device's private cache), pairs of arrays of one code with nothing received between them a generated time (4 s..25 h) apart, interleaved with "
     "unrelated traffic and clock advances from {1 s .. 2 days}; every exposed attribute is read (then re-read around loop turns until settled) "
     "after every step and compared with the model; non-trivial = >= 2 writers competed for one attribute with other "
     "traffic between them, or a read fell after an expiry threshold; distinct by the whole history."
@@ -212,7 +212,17 @@ NZ = 6
 TRVS = [f"04:0560{50 + i}" for i in range(NZ)]
 BDR, DHWS, HWV = "13:237335", "07:045960", "13:081807"
 CO2, HUM = "37:154011", "32:155617"  # HVAC sensors (classes given by the known list, as a user would)
+OTB = "10:048122"  # an OpenTherm bridge of another installation (orphan): its 3220 values live in a private cache of the device
 KNOWN = {CO2: {"class": "CO2"}, HUM: {"class": "HUM"}}
+OT_ATTRS = {0x19: "boiler_output_temp", 0x12: "ch_water_pressure", 0x1A: "dhw_temp", 0x1B: "outside_temp"}  # status data-ids: 5 min x 2.1
+RAMSES_OTB = {"3210": ("boiler_return_temp", "temperature"), "1081": ("ch_max_setpoint", "setpoint")}  # attributes fed by a RAMSES code only here
+
+
+def ot_frame(i: int, val: int) -> str:
+    b1 = 0x40  # Read-Ack; the top bit makes the parity of the 32-bit OpenTherm frame even
+    if bin((b1 << 24) | (i << 16) | val).count("1") % 2:
+        b1 |= 0x80
+    return f"RP --- {OTB} {GWY} --:------ 3220 005 00{b1:02X}{i:02X}{val:04X}"
 
 
 def schema() -> dict:
@@ -236,10 +246,10 @@ def writer_strategy() -> Any:
     zone = st.integers(0, NZ - 1)
 
     @st.composite
-    def w(draw: Any) -> dict:
-        kind = draw(st.sampled_from((
+    def w(draw: Any, force: str | None = None) -> dict:
+        kind = force or draw(st.sampled_from((
             "z30C9-arr", "z30C9-arr", "z30C9-rp", "z2309-arr", "z2309-rp", "z2349-rp", "z2349-i", "z000A-arr", "z000A-rp", "z12B0-rp", "z0004-rp",
-            "d1260-rp", "d10A0-rp", "d1F41-rp", "s2E04", "s3150", "t30C9", "t2309", "t3150", "t12B0", "b0008", "h1260", "v1298", "v12A0", "noise", "noise")))
+            "d1260-rp", "d10A0-rp", "d1F41-rp", "s2E04", "s3150", "t30C9", "t2309", "t3150", "t12B0", "b0008", "h1260", "v1298", "v12A0", "o3220", "o3220", "o3210", "noise", "noise")))
         eff: list[list] = []  # [entity, attribute, value]
         if kind in ("z30C9-arr", "z2309-arr"):
             code = kind[1:5]
@@ -351,6 +361,18 @@ def writer_strategy() -> Any:
             fr = f" I --- {HUM} --:------ {HUM} 12A0 002 00{hh:02X}"
             eff = [[f"dev:{HUM}", "indoor_humidity", hh / 100]]
             L = _HOUR
+        elif kind == "o3220":
+            i = draw(st.sampled_from(sorted(OT_ATTRS)))
+            # f8.8 value on the half-unit grid (exact in binary); 25.5 = 0x1980 is a documented 'invalid value' marker of parser_3220
+            half = draw(st.integers(2, 180).filter(lambda h: h != 51))
+            fr = ot_frame(i, half << 7)
+            eff = [[f"dev:{OTB}", OT_ATTRS[i], half / 2]]
+            L = 5 * _MIN * 2.1
+        elif kind == "o3210":
+            v = draw(temp)
+            fr = f"RP --- {OTB} {GWY} --:------ 3210 003 00{th(v)}"
+            eff = [[f"dev:{OTB}", "boiler_return_temp", v]]
+            L = _HOUR
         else:  # unrelated traffic: other system, other codes, requests
             fr = draw(st.sampled_from((
                 f" I --- {CTL} --:------ {CTL} 1F09 003 FF073F", f"RQ --- {GWY} {CTL} --:------ 30C9 001 01",
@@ -364,6 +386,14 @@ def writer_strategy() -> Any:
     def hist(draw: Any) -> dict:
         steps: list[dict] = []
         for _ in range(draw(st.integers(8, 40))):
+            if draw(st.integers(0, 11)) == 0:
+                # two arrays of one code from the controller with NOTHING received in between, a generated time apart (> 3 s: the
+                # second is not a continuation of the first, however adjacent) - each zone then follows its own newest writer
+                k = draw(st.sampled_from(("z000A-arr", "z000A-arr", "z2309-arr", "z30C9-arr")))
+                steps.append(dict(draw(w(k)), op="rx"))
+                steps.append({"op": "advance", "dt": draw(st.sampled_from((4.0, 361.0, 1000.0, 3700.0, 7300.0, 14500.0, 90000.0)))})
+                steps.append(dict(draw(w(k)), op="rx"))
+                continue
             if draw(st.integers(0, 3)) == 0:
                 steps.append({"op": "advance", "dt": draw(st.sampled_from((1.0, 30.0, 200.0, 361.0, 725.0, 1000.0, 1801.0, 2500.0, 3700.0, 7300.0, 14500.0,
                                                                             29000.0, 90000.0, 173000.0)))})
@@ -380,7 +410,7 @@ ATTRS = {
     "tcs": ("system_mode", "heat_demand"),
 }
 DEV_ATTRS = {**{t: ("temperature", "setpoint", "heat_demand", "window_open") for t in TRVS}, BDR: ("relay_demand",), DHWS: ("temperature",),
-             CO2: ("co2_level",), HUM: ("indoor_humidity",)}
+             CO2: ("co2_level",), HUM: ("indoor_humidity",), OTB: tuple(OT_ATTRS.values()) + ("boiler_return_temp",)}
 
 
 def _read_all(gwy: Any) -> dict:
@@ -417,7 +447,7 @@ async def _run_hist(loop: Any, case: dict) -> dict:
     eth = stack.Ether(loop)
     vclock.STATE.frozen = vclock.EPOCH
     gwy, port = await stack.make_gateway(eth, gwy_id=GWY, config={"disable_discovery": True, "enable_eavesdrop": bool(case.get("eavesdrop"))},
-                                         schema=dict(schema(), orphans_hvac=[CO2, HUM]), known_list={k: dict(v) for k, v in KNOWN.items()})
+                                         schema=dict(schema(), orphans_hvac=[CO2, HUM], orphans_heat=[OTB]), known_list={k: dict(v) for k, v in KNOWN.items()})
     now = 0.0
     reads: list[dict] = []
     try:
